@@ -8,11 +8,13 @@
 #include <string.h>
 #include <string>
 #include <vector>
-static std::string g_main, g_inc;
+static std::string g_main, g_inc, g_a, g_b;
 struct FR : public FileReader {
   Status ReadFile(const std::string& path, std::string* contents, std::string* err) override {
     if (path == "build.ninja") { *contents = g_main; return Okay; }
     if (path == "inc.ninja" || path == "sub/sub.ninja") { *contents = g_inc; return Okay; }
+    if (path == "a.ninja") { *contents = g_a; return Okay; }
+    if (path == "b.ninja") { *contents = g_b; return Okay; }
     if (path == "pre.ninja") { *contents = "x = px\nbuild po: r pi\n"; return Okay; }
     *err = "No such file or directory"; return NotFound;
   }
@@ -82,6 +84,43 @@ extern "C" int harness_main() {
   VERIF_ASSERT(state.defaults_.size() == 1 && state.defaults_[0]->path() == "o", "C12: default targets are recorded");
   verif_reach(inc == 2 ? "subninja" : inc == 1 ? "include" : "single-file"); if (crlf) verif_reach("crlf"); if (cont) verif_reach("continuation");
   verif_obs((long)state.edges_.size());
+  return 0;
+}
+#elif defined(MODE_SIBLINGS)
+// rule names resolve in the scope of the file that uses them: two child files read one after the other (each by include or by subninja); a rule
+// declared in a subninja file is local to it, a rule declared in an included file belongs to the includer, the parent's rules are visible in both
+extern "C" int harness_main() {
+  ir2c_global_ctors();
+  bool top_cc = verif_bool("top_declares_cc"), a_cc = verif_bool("first_child_declares_cc"), b_var = verif_bool("second_child_starts_with_a_variable");
+  bool a_sub = verif_bool("first_child_is_subninja"), b_sub = verif_bool("second_child_is_subninja"); bool crlf = verif_bool("crlf");
+  const char* nl = crlf ? "\r\n" : "\n";
+  std::string m; if (top_cc) { m += "rule cc"; m += nl; m += "  command = top-cc $in"; m += nl; }
+  m += "rule other"; m += nl; m += "  command = other $in"; m += nl;
+  m += (a_sub ? "subninja a.ninja" : "include a.ninja"); m += nl; m += (b_sub ? "subninja b.ninja" : "include b.ninja"); m += nl;
+  m += "build t.out: other t.in"; m += nl;
+  g_main = m;
+  g_a = ""; if (a_cc) { g_a += "rule cc"; g_a += nl; g_a += "  command = a-cc $in"; g_a += nl; } g_a += "build a0.out: other a0.in"; g_a += nl; g_a += "build a.out: cc a.in"; g_a += nl;
+  g_b = ""; if (b_var) { g_b += "v = 1"; g_b += nl; } g_b += "build b.out: cc b.in"; g_b += nl;
+  State state; FR fr; std::string err; ManifestParser mp(&state, &fr);
+  bool ok = mp.Load("build.ninja", &err);
+  // reference: which rule does each use of `cc` name?
+  bool dup = top_cc && a_cc && !a_sub;                              // an included file redeclaring a rule of its includer
+  const char* a_uses = a_cc ? "a-cc" : top_cc ? "top-cc" : NULL;
+  const char* b_uses = top_cc ? "top-cc" : (a_cc && !a_sub) ? "a-cc" : NULL;
+  if (dup || !a_uses || !b_uses) {
+    VERIF_ASSERT(!ok, "C12: a manifest that breaks a documented constraint is rejected");
+    VERIF_ASSERT(ok || err.find(".ninja:") != std::string::npos, "C12: the rejection carries a file:line diagnostic");
+    verif_reach("rejected"); return 0;
+  }
+  VERIF_ASSERT(ok, "C12: a manifest following the documented grammar is accepted");
+  if (!ok) return 0;
+  Edge* a = edge_for(&state, "a.out"); Edge* b = edge_for(&state, "b.out"); Edge* t = edge_for(&state, "t.out");
+  VERIF_ASSERT(a && b && t, "C12: every build statement produced its edge");
+  if (!a || !b || !t) return 0;
+  VERIF_ASSERT(a->EvaluateCommand() == std::string(a_uses) + " a.in", "C12: a rule name resolves in the scope of the file that uses it (first child)");
+  VERIF_ASSERT(b->EvaluateCommand() == std::string(b_uses) + " b.in", "C12: a rule name resolves in the scope of the file that uses it (a rule private to one subninja file is not visible in its sibling)");
+  VERIF_ASSERT(t->EvaluateCommand() == "other t.in", "C12: the parent's own statements are unaffected by its children");
+  verif_reach("siblings"); verif_obs((long)state.edges_.size());
   return 0;
 }
 #elif defined(MODE_KINDS)
